@@ -804,6 +804,8 @@ fn execute(args: &Opts, input: String, filename: Option<PathBuf>) -> Result<Vec<
 	}
 
 	if ctx.fmt_lines.is_empty() && args.silent {
+		#[cfg(vicut_verif)]
+		verif::dump_records(&[]);
 		return Ok(vec![]);
 	}
 
@@ -830,6 +832,8 @@ fn execute(args: &Opts, input: String, filename: Option<PathBuf>) -> Result<Vec<
 		trim_fields(&mut ctx.fmt_lines);
 	}
 
+	#[cfg(vicut_verif)]
+	verif::dump_records(&ctx.fmt_lines);
 	Ok(ctx.fmt_lines)
 }
 
